@@ -842,7 +842,14 @@ def r34(ctx: Ctx) -> RuleReport:
     _check_evaluate(ctx, rep, ev)
     ty = repo.func('penman.constant', 'type')
     calls_eval = any(any(t.kind == 'func' and t.func.fq == ev.fq for t in ts) for _, ts in ctx.cg.calls_in(ty))
-    rep.oblige('type() derives the type from evaluate()', calls_eval, '', ty.loc(), key='type calls evaluate', positive=False)
+    own_loads = [c for c, ts in ctx.cg.calls_in(ty) if any(t.kind == 'ext' and t.name in ('json.loads', 'json.JSONDecoder') for t in ts)]
+    bare = [c for c in own_loads if not any(k.arg == 'parse_constant' for k in c.keywords)]
+    if not calls_eval and bare:
+        rep.add('type calls evaluate', ty.loc(bare[0]), 'violation',
+                f'type() decodes the constant itself with `{norm(bare[0])[:50]}`, without the parse_constant=str hook evaluate() uses: the decoder then turns the spellings '
+                f'NaN, Infinity and -Infinity into floats, so type("NaN") is FLOAT while evaluate("NaN") is the symbol "NaN" - the reported type and the evaluated value disagree')
+    else:
+        rep.oblige('type() derives the type from evaluate()', calls_eval, '', ty.loc(), key='type calls evaluate', positive=False)
     ok, tm = try_fold_typemap(ctx)
     # a hand-written number grammar in type()/evaluate() must be the JSON number grammar that evaluate() decodes with
     m = repo.module('penman.constant')
